@@ -97,6 +97,11 @@ def gen_scenario(r: random.Random, task: Optional[str] = None, n_frames: Optiona
     ego_yaw = O.rand_yaw(r)
     ego_speed = r.uniform(0, 15) if not fast_ego else r.uniform(15, 40)
     ego_yawrate = r.uniform(-0.5, 0.5) if not fast_ego else r.choice([-1, 1]) * r.uniform(0.3, 0.9)
+    if not fast_ego and r.random() < 0.15:
+        # an ego heading that is almost, but not exactly, along a map axis (quaternion w or z within 1e-5 of 1): driving
+        # straight along a grid-aligned road. The rotation is small, its effect at 100 m (up to a metre) is not.
+        ego_yaw = G.wrap_pi(r.choice([0.0, 0.0, math.pi / 2, -math.pi / 2, math.pi]) + r.choice([-1, 1]) * 10 ** r.uniform(-4, -2.05))
+        ego_yawrate = r.uniform(-1, 1) * 1e-3
     t0 = 1_600_000_000_000_000 + r.randint(0, 10**9)
     dt = r.choice([100_000, 100_000, 50_000, 500_000])
     _merge_default = r.random() < 0.3
